@@ -36,7 +36,39 @@ PROPS["C09"] = {
     "outside": ["sizes > 2^31", "readers returning m > len(p) or m < 0 (the code panics on purpose)", "writers returning m > len(p)"],
     "assumptions": ["sync.Pool returns nil or a previously Put element (exclusive)", "append() capacity growth is unspecified (fresh symbol >= needed)", "go/ssa lowering is faithful"],
     "units": [
-        {"name": "ring", "pkgdir": "pkg/buffer/ring", "files": ["harness/ring/c09_ring.go"], "mode": "int", "contracts": ["byteslice"],
+        {"name": "ring", "pkgdir": "pkg/buffer/ring", "files": ["harness/ring/ring_common.go", "harness/ring/c09_ring.go"], "mode": "int", "contracts": ["byteslice"],
          "cfg": {"vcfg": {"reader_calls": 2}}, "cfg_thorough": {"vcfg": {"reader_calls": 3}}},
+    ],
+}
+
+PROPS["C11"] = {
+    "level": "other",
+    "level_text": "Bounded symbolic execution of the real linkedlist.Buffer code: one inductive step per operation from an arbitrary valid list (0..3 segments, symbolic lengths <= 2^31 and contents), every path obligation discharged by z3; the representation invariant (size/bytes/tail in step with the list, no empty segment) is re-proved after every operation.",
+    "level_note": "Trusted: go/ssa lowering, SSA->SMT translation (counterexamples replayed natively), z3. byteslice.Get/Put replaced by the contract established under C12. Pre-state lists have <= 3 segments (quick: 2); <= 3 reader calls per ReadFrom.",
+    "design_ref": "DESIGN.md section 5 (C11)",
+    "explanation": "One inductive step of every linkedlist.Buffer operation, symbolically executed from go/ssa, from an arbitrary list with a bounded number of segments; content compared pointwise at a free index; copies checked by mutating the caller's slice after the call.",
+    "bounds": {"segments_in_prestate": "<= 2 quick, <= 3 thorough", "segment_length": "[1, 2^31]", "reader_calls": "<= 2 quick / 3 thorough"},
+    "outside": ["longer pre-state lists (the code only ever touches head/tail and the counters)", "readers/writers violating the io contracts"],
+    "assumptions": ["byteslice contract (C12)", "append() capacity growth unspecified"],
+    "units": [
+        {"name": "linkedlist", "pkgdir": "pkg/buffer/linkedlist", "files": ["harness/linkedlist/list_common.go", "harness/linkedlist/c11_list.go"], "mode": "int", "contracts": ["byteslice"],
+         "cfg": {"vcfg": {"nodes": 2, "reader_calls": 2}}, "cfg_thorough": {"vcfg": {"nodes": 3, "reader_calls": 3}}},
+    ],
+}
+
+PROPS["C10"] = {
+    "level": "other",
+    "level_text": "Bounded symbolic execution of the real elastic.Buffer / elastic.RingBuffer code with the real ring.Buffer and linkedlist.Buffer code inlined: one inductive step per operation from an arbitrary valid state (static limit, ring present/absent with any valid cursors, list of 0..2 segments, symbolic lengths/contents); all path obligations discharged by z3.",
+    "level_note": "Trusted: go/ssa lowering, SSA->SMT translation (counterexamples replayed natively), z3. byteslice and ring-buffer pools replaced by the contracts established under C12 (Get: exclusively owned memory / an empty unshared ring). Pre-state list <= 2 segments, Writev <= 3 segments (the >1024 segment case is a concrete-length run in the thorough tier), total content <= MaxInt32 (Peek's 'everything' sentinel).",
+    "design_ref": "DESIGN.md section 5 (C10)",
+    "explanation": "One inductive step of every elastic buffer operation, symbolically executed from go/ssa (ring and list code inlined, not summarised); abstract value ring++list compared pointwise at a free index.",
+    "bounds": {"list_segments_in_prestate": "<= 1 quick, <= 2 thorough", "writev_segments": "1..2 quick, 1..3 thorough", "sizes": "[0, 2^31], total content <= 2^31-1", "reader_calls": "<= 2"},
+    "outside": ["longer pre-state lists", "content > MaxInt32 bytes"],
+    "assumptions": ["pool contracts (C12)", "append() capacity growth unspecified"],
+    "units": [
+        {"name": "elastic", "pkgdir": "pkg/buffer/elastic", "files": ["harness/elastic/c10_elastic.go"], "mode": "int", "contracts": ["byteslice", "ringbuffer"],
+         "extra": [("pkg/buffer/ring", "harness/ring/ring_common.go"), ("pkg/buffer/ring", "harness/ring/ring_export.go"),
+                   ("pkg/buffer/linkedlist", "harness/linkedlist/list_common.go"), ("pkg/buffer/linkedlist", "harness/linkedlist/list_export.go")],
+         "cfg": {"vcfg": {"nodes": 1, "reader_calls": 2, "segs": 2}}, "cfg_thorough": {"vcfg": {"nodes": 2, "reader_calls": 2, "segs": 3}}},
     ],
 }
